@@ -458,6 +458,15 @@ Fixpoint walk_attrs (fuel : nat) (c : wcfg) (seen : list N) (b : bytes) : bool :
   end.
 Definition valid_attrs (c : wcfg) (b : bytes) : bool := walk_attrs (length b) c [] b.
 
+(** [b] is exactly ONE path attribute of type [ty], as a proposition (used to state what a
+    constructor returns): flags octet fitting the RFC category of [ty], type octet, a 1-octet
+    length without / a 2-octet length with the extended-length bit, and a value of exactly that
+    size which [value_ok] accepts for the type; every octet is an octet. *)
+Definition attr_block (c : wcfg) (ty : N) (b : bytes) : Prop :=
+  exists fl v, fl < 256 /\ ty < 256 /\ wf_bytes v /\ flags_ok fl ty = true /\ value_ok c ty v = true /\
+    ((bit 16 fl = false /\ len v <= 255 /\ b = fl :: ty :: len v :: v) \/
+     (bit 16 fl = true /\ len v <= 65535 /\ b = fl :: ty :: be 2 (len v) ++ v)).
+
 (* ------------------------------------------------------------------------------------- *)
 (** * messages *)
 
